@@ -479,7 +479,7 @@ class LazyFn(LazyObject[_T]):
       fn = _maybe_make(self.value)
       if not callable(fn):
         raise TypeError(f'fn is not callable from {self}.')
-      args = tuple(_maybe_make(arg) for arg in self.args)
+      args = [_maybe_make(arg) for arg in self.args]
       kwargs = {k: _maybe_make(v) for k, v in self.kwargs}
       result = _maybe_make(fn(*args, **kwargs))
     if self._lazy_result:
